@@ -44,3 +44,17 @@ def run_quoted(case):
         escape_char=k["esc"], wildcard_multi=k["multi"], wildcard_single=k["single"],
         str_quote=case["q"], add_escaped=k["add"], filter_chars=k["filter"], str_quote_pattern=None))
     return {"q": B().convert_value_str(SigmaString(case["s"]), ConversionState())}
+
+def run_field(case):
+    from sigma.conversion.base import TextQueryBackend
+    k = case["k"]
+    _bk[0] += 1
+    B = type(f"FB{_bk[0]}", (TextQueryBackend,), dict(
+        name="f", formats={"default": "x"}, requires_pipeline=False,
+        field_quote=k["quote"], field_escape=k["escape"], field_escape_quote=k["escape_quote"],
+        field_escape_pattern=re.compile(k["escape_pattern"]) if k["escape_pattern"] else None,
+        field_quote_pattern=re.compile(k["quote_pattern"]) if k["quote_pattern"] else None,
+        field_quote_pattern_negation=True))
+    f = case["f"]
+    pos = sorted({m.start() for m in re.finditer(k["escape_pattern"], f)}) if k["escape_pattern"] else []
+    return {"text": B().escape_and_quote_field(f), "pos": pos}
